@@ -102,6 +102,44 @@ def overwrite_factory(ns):
     return f
 
 
+def rootfile_factory(ns):
+    """a well-formed trusted root file (free version numbers) is loaded, replaced from outside by its successor, loaded again"""
+    def f(eng):
+        import conda_content_trust.common as C
+
+        def harness(eng):
+            t = T(eng, ns=ns)
+            va, vb = t.int('va'), t.int('vb')
+            eng.add(va.e >= 1, vb.e >= 1)
+
+            def doc(v, key):
+                return {'signatures': {}, 'signed': {'type': 'root', 'metadata_spec_version': '0.6.0', 'version': v, 'timestamp': '2024-01-01T00:00:00Z', 'expiration': '2034-01-01T00:00:00Z',
+                                                      'delegations': {'root': {'pubkeys': [key], 'threshold': 1}, 'key_mgr': {'pubkeys': ['cd' * 32], 'threshold': 1}}}}
+            d1, d2 = doc(va, 'ab' * 32), doc(vb, 'ef' * 32)
+            it = Interp(eng)
+            fs = FS()
+            eng.path_local['fs'] = fs
+            fs.files['root.json'] = canon_of(it, d1)
+            mk = lambda mm: dict(scenario='rootfile', va=conc(mm, va), vb=conc(mm, vb))
+            obs = []
+            l1 = run_call(it, C.load_metadata_from_file, ['root.json'])
+            fs.files['root.json'] = canon_of(it, d2)          # replaced from outside (os.replace of a temporary file, another process)
+            l2 = run_call(it, C.load_metadata_from_file, ['root.json'])
+            if not is_ret(l1) or not is_ret(l2):
+                obs.append(oblige(eng, 'loading a well-formed root file succeeds', True, mk))
+            else:
+                obs.append(oblige(eng, 'the trusted root file loads as what it holds', z3.Not(json_eq(it, l1[1], d1)), mk))
+                obs.append(oblige(eng, 'after the trusted root file was replaced by its successor, loading gives the successor (keys and version of the file, not of an earlier load)', z3.Not(json_eq(it, l2[1], d2)), mk))
+            m = path_model(eng)
+            if m is None:
+                return None
+            wv = mk(m)
+            wv['predicted'] = predicted(l2)
+            return record(eng, l2, obs, wv, ['reloaded'] if is_ret(l2) else ['failed'])
+        return harness
+    return f
+
+
 def envelope_factory(ns):
     """an envelope whose signature map has entries under FREE key strings (any spelling) is written and loaded"""
     def f(eng):
@@ -232,6 +270,27 @@ def concrete(case):
                 elif CC.ref_canon(back) != raw:
                     probs.append('canonical bytes of the loaded envelope differ from the file')
         return {'outcome': oc, 'problems': probs}
+    if case['scenario'] == 'rootfile':
+        import os
+
+        def doc(v, key):
+            return {'signatures': {}, 'signed': {'type': 'root', 'metadata_spec_version': '0.6.0', 'version': v, 'timestamp': '2024-01-01T00:00:00Z', 'expiration': '2034-01-01T00:00:00Z',
+                                                  'delegations': {'root': {'pubkeys': [key], 'threshold': 1}, 'key_mgr': {'pubkeys': ['cd' * 32], 'threshold': 1}}}}
+        d1, d2 = doc(case['va'], 'ab' * 32), doc(case['vb'], 'ef' * 32)
+        with CC.temp_files({'root.json': CC.ref_canon(d1)}) as paths:
+            p = paths['root.json']
+            oc = CC.outcome_of(C.load_metadata_from_file, p)
+            if oc['kind'] == 'ret' and not _same(from_wire(oc['value']), d1):
+                probs.append('the root file does not load as what it holds')
+            with open(p + '.tmp', 'wb') as fo:
+                fo.write(CC.ref_canon(d2))
+            os.replace(p + '.tmp', p)
+            oc = CC.outcome_of(C.load_metadata_from_file, p)
+            if oc['kind'] != 'ret':
+                probs.append(f'loading the replaced root file raised {oc["cls"]}')
+            elif not _same(from_wire(oc['value']), d2):
+                probs.append(f'after the trusted root file was replaced by its successor (version {case["vb"]}), loading still gives version {from_wire(oc["value"])["signed"].get("version")} with the old keys')
+        return {'outcome': oc, 'problems': probs}
     if case['scenario'] == 'overwrite':
         v1, v2 = from_wire(case['v1']), from_wire(case['v2'])
         prior = {'missing': None, 'v1': CC.ref_canon(v1), 'notjson': b'{not json'}[case['prior']]
@@ -320,6 +379,7 @@ def post(res, tier):
 
 def units(tier):
     return [Unit('overwrite / load / rewrite', overwrite_factory('ow'), expect=('written',), max_witnesses=150),
+            Unit('trusted root file replaced', rootfile_factory('rf'), expect=('reloaded',), max_witnesses=20),
             Unit('envelope roundtrip', envelope_factory('en'), expect=('roundtrip',), max_witnesses=60),
             Unit('sign-write-load-sign-write-load', cycle_factory('cy'), expect=('cycle',), max_witnesses=60)]
 
